@@ -208,7 +208,9 @@ func (s selector) watchOpts() []state.WatchKindOption {
 var (
 	keys   = []string{"a", "b", "c", "d"}
 	values = []string{"", "0", "1", "5", "10", "-3", "1k", "1Ki", "2Ki", "1M", "1Mi", "3Mi", " 7 ", "007", "abc", "x1", "ü", "1000", "1024", "999", "1000000", "1048576", "1048575", "1G", "1Gi", "1073741824", "1000000000", "2T", "2Ti", "2199023255552", "1P", "1Pi", "1125899906842624", "-1k", "-1000"}
-	idRes  = []*regexp.Regexp{nil, nil, regexp.MustCompile("^x"), regexp.MustCompile("[yz]$"), regexp.MustCompile(".*"), regexp.MustCompile("x|w")}
+	// ids of the resources in every world: ids that contain one another, metacharacters, upper case
+	worldIDs = []string{"x", "xy", "yx", "w", "w-1", "W.z"}
+	idRes    = []*regexp.Regexp{nil, nil, regexp.MustCompile("^x"), regexp.MustCompile("[yz]$"), regexp.MustCompile(".*"), regexp.MustCompile("x|w")}
 )
 
 func genLabels(rng *rand.Rand) map[string]string {
@@ -256,7 +258,11 @@ func genSelector(rng *rand.Rand) selector {
 		s.Queries = append(s.Queries, q)
 	}
 
-	s.ID = idRes[rng.IntN(len(idRes))]
+	if rng.IntN(5) < 2 {
+		s.ID = idRes[rng.IntN(len(idRes))]
+	} else {
+		s.ID = res.GenIDRegexp(rng, worldIDs)
+	}
 
 	return s
 }
@@ -403,7 +409,7 @@ func history(c *vk.C, rng *rand.Rand, k int) {
 	cli := lb.New(server.NewState(inner))
 	remote := client.NewAdapter(cli)
 
-	ids := []string{"x", "y", "z", "w"}
+	ids := worldIDs
 	sels := []selector{genSelector(rng), genSelector(rng), genSelector(rng), genSelector(rng)}
 
 	var (
